@@ -27,6 +27,9 @@ theorem storeCasm_info {casm casm' : Map Nat CasmMeta} {b : Block} (n : Nat)
   unfold storeCasm at h
   by_cases hv : b.ver ≥ 2
   · simp only [hv, if_true] at h
+    split at h
+    rotate_left
+    · cases h
     have hc1 : Sorted (setAll casm (b.diff.declV1.map (fun e => (e.1, (⟨n, e.2, 0, none⟩ : CasmMeta))))) :=
       sorted_setAll hs _
     obtain ⟨hs', hget, hall⟩ := updAll_spec _ _ _ hsm hc1 h
